@@ -2,6 +2,7 @@ package main
 
 import (
 	"fmt"
+	"go/token"
 	"go/types"
 	"os"
 	"regexp"
@@ -247,6 +248,7 @@ func RuleK14(r *Report, c *Codec) {
 func RuleK15(r *Report, c *Codec) {
 	r.Rule("K15", "when a field's MarshalUT0311L0x succeeds its bytes are copied into the message at the field's offset on every path that does not fail: no guard lets the encoder silently leave such a field out (only a nil pointer field is skipped)", 1)
 	bad := ""
+	skipped := ""
 	n := 0
 	for _, cp := range c.M.Paths {
 		if cp.Kind != "marshaler" || cp.ErrNil == 0 || cp.Path.Outcome != "return" {
@@ -259,7 +261,17 @@ func RuleK15(r *Report, c *Codec) {
 			}
 		}
 		if res == nil {
-			continue // nil pointer field: nothing to encode
+			// the encoder was not asked: only a nil pointer field may be left out like that
+			isNilPtr := false
+			for k, v := range cp.Path.State.Bools {
+				if v && strings.HasPrefix(k, "(reflect.Value).IsNil(") {
+					isNilPtr = true
+				}
+			}
+			if !isNilPtr {
+				skipped = "a field with an encoder is left out without its encoder having been called, and not because it is a nil pointer, when [" + cut(cp.Path.State.Describe(), 240) + "]"
+			}
+			continue
 		}
 		if ok, known := cp.Path.State.Bools["isnil("+res.String()+"#1)"]; !known || !ok {
 			continue // the field's own encoder failed
@@ -276,6 +288,7 @@ func RuleK15(r *Report, c *Codec) {
 		}
 	}
 	r.Check(bad == "" && n > 0, "K15", "codec.marshal:marshaler", c.P.Pos(c.M.Fn.Pos()), fmt.Sprintf("%d successful field encodings, all copied", n), bad)
+	r.Check(skipped == "", "K15", "codec.marshal:marshaler-asked", c.P.Pos(c.M.Fn.Pos()), "the encoder of every non-nil field is called", skipped)
 }
 
 // K17: a field decoder called on a non-nil receiver never returns (nil, nil): the codec stores the result of a
@@ -429,6 +442,133 @@ func RuleK21(r *Report, c *Codec) {
 			r.Check(bad == "", "K21", kf.Name+":encoder", c.P.Pos(kf.MarshalFn.Pos()), fmt.Sprintf("%d paths", n), bad)
 		}
 	}
+}
+
+// K22: the field loop goes on after a nested walk. A field walker that calls a field walker (the recursion into an
+// embedded struct) may return that call's error only on the branch where it is non-nil: `return marshal(f, bytes)`
+// inside the loop ends the walk after the embedded struct and silently leaves out every field declared after it.
+func RuleK22(r *Report, c *Codec) {
+	r.Rule("K22", "the error of a nested field walk (embedded struct) is returned only where it was found non-nil: on success the field loop continues with the next field", 1)
+	for _, cf := range []*CodecFacts{c.M, c.U} {
+		fn := cf.Fn
+		bad := ""
+		n := 0
+		var fns []*ssa.Function
+		fns = append(fns, fn)
+		for _, g := range c.P.AllFuncs {
+			if g != fn && (isFieldHelper(c.P, g) || (g.Parent() == fn)) {
+				fns = append(fns, g)
+			}
+		}
+		for _, g := range fns {
+			for _, b := range g.Blocks {
+				for _, in := range b.Instrs {
+					call, ok := in.(*ssa.Call)
+					if !ok || call.Call.StaticCallee() == nil || !isFieldWalker(call.Call.StaticCallee()) {
+						continue
+					}
+					if call.Type().String() != "error" {
+						continue
+					}
+					switch {
+					case g.Parent() != nil && isFieldWalker(g.Parent()) && strings.Contains(g.Synthetic, "range-over-func"):
+						// the body of a range-over-func field loop: its returns are compiled into the iterator
+						// protocol (a state variable examined after the loop); counted, not analysed
+						n++
+					case isFieldWalker(g) && underLoopHeader(call.Block()):
+						n++
+						if why := returnedOnlyWhenNonNil(call); why != "" {
+							bad = c.P.Pos(call.Pos()) + ": " + why
+						}
+					}
+				}
+			}
+		}
+		if n > 0 {
+			r.Check(bad == "", "K22", "codec."+cf.Dir+":nested", c.P.Pos(fn.Pos()), fmt.Sprintf("%d nested walks", n), bad)
+		}
+	}
+}
+
+// underLoopHeader: blk is inside a loop body - it, or one of its dominators, lies on a cycle of the control-flow
+// graph (a block that returns is not itself on a cycle, its loop header is).
+func underLoopHeader(blk *ssa.BasicBlock) bool {
+	for d := blk; d != nil; d = d.Idom() {
+		if inLoop(d) {
+			return true
+		}
+	}
+	return false
+}
+
+// returnedOnlyWhenNonNil: every way the error value v reaches a return (directly or through phis) lies on the
+// true branch of `v != nil` (or the false branch of `v == nil`).
+func returnedOnlyWhenNonNil(v ssa.Value) string {
+	nonNilBlock := func(blk *ssa.BasicBlock) bool {
+		child := blk
+		for d := blk.Idom(); ; child, d = d, d.Idom() {
+			if d == nil {
+				return false
+			}
+			ifi, ok := d.Instrs[len(d.Instrs)-1].(*ssa.If)
+			if !ok {
+				continue
+			}
+			bo, ok := ifi.Cond.(*ssa.BinOp)
+			if !ok || (bo.X != v && bo.Y != v) {
+				continue
+			}
+			other := bo.Y
+			if bo.Y == v {
+				other = bo.X
+			}
+			if k, ok := other.(*ssa.Const); !ok || !k.IsNil() {
+				continue
+			}
+			inTrue := (d.Succs[0] == child || dominates(d.Succs[0], child)) && len(d.Succs[0].Preds) == 1
+			inFalse := (d.Succs[1] == child || dominates(d.Succs[1], child)) && len(d.Succs[1].Preds) == 1
+			if bo.Op == token.NEQ && inTrue {
+				return true
+			}
+			if bo.Op == token.EQL && inFalse {
+				return true
+			}
+		}
+	}
+	seen := map[ssa.Value]bool{}
+	var visit func(x ssa.Value, at *ssa.BasicBlock) string
+	visit = func(x ssa.Value, at *ssa.BasicBlock) string {
+		if seen[x] {
+			return ""
+		}
+		seen[x] = true
+		if x.Referrers() == nil {
+			return ""
+		}
+		for _, ref := range *x.Referrers() {
+			switch r := ref.(type) {
+			case *ssa.Return:
+				if !nonNilBlock(r.Block()) {
+					return "the nested walk's result is returned on a path where it may be nil: the field loop ends there and the fields declared after the embedded struct are skipped"
+				}
+			case *ssa.Phi:
+				for i, e := range r.Edges {
+					if e == x && !nonNilBlock(r.Block().Preds[i]) && r.Block().Preds[i] != x.(ssa.Instruction).Block() {
+						// carried along a path where it was not found non-nil
+						if why := visit(r, r.Block()); why != "" {
+							return why
+						}
+					} else if e == x && r.Block().Preds[i] == x.(ssa.Instruction).Block() && !nonNilBlock(r.Block().Preds[i]) {
+						if why := visit(r, r.Block()); why != "" {
+							return why
+						}
+					}
+				}
+			}
+		}
+		return ""
+	}
+	return visit(v, nil)
 }
 
 // K16: the value-tag grammar. The pattern constant the codec matches `value:` tags with is tabulated over every
@@ -988,8 +1128,37 @@ func RuleK20(r *Report, c *Codec) {
 			return f == walkerFn || (f.Object() != nil && f.Object().Exported() && f != fn)
 		})
 		bad := ""
+		prefilled := ""
+		fresh := 0
 		multi := 0
 		for _, pa := range w.Walk(fn, symbolicArgs(fn), nil) {
+			// a destination the entry point creates itself (reflect.New) reaches the field walk as created: nothing
+			// is stored into it first (a copy of the prototype would survive in every field the decoder leaves alone)
+			var sets []*Term
+			for _, e := range pa.Events {
+				if e.Kind != "call" || len(e.Args) < 1 {
+					continue
+				}
+				if strings.HasPrefix(e.Name, "(reflect.Value).Set") && len(e.Args) >= 2 {
+					sets = append(sets, e.Args[0])
+					continue
+				}
+				ci, ok := e.Instr.(ssa.CallInstruction)
+				if !ok || ci.Common().StaticCallee() != walkerFn {
+					continue
+				}
+				for _, a := range e.Args {
+					if a == nil || a.Typ == nil || typeName(a.Typ) != "reflect.Value" || !strings.Contains(a.String(), "reflect.New(") {
+						continue
+					}
+					fresh++
+					for _, st := range sets {
+						if st == a || st.String() == a.String() {
+							prefilled = "the value " + cut(a.String(), 60) + " created for the message is written (reflect.Value.Set...) before it is decoded into: fields the decoder leaves untouched keep what was put there"
+						}
+					}
+				}
+			}
 			// reflect.New is a pure call to the walker: two evaluations render alike; what tells a value made per
 			// message from one made once is whether the SAME evaluation (term object) reaches two field walks
 			seen := map[*Term]bool{}
@@ -1024,6 +1193,9 @@ func RuleK20(r *Report, c *Codec) {
 		if multi > 0 {
 			n++
 			r.Check(bad == "", "K20", "codec."+fn.Name(), c.P.Pos(fn.Pos()), fmt.Sprintf("%d paths decoding several messages", multi), bad)
+		}
+		if fresh > 0 {
+			r.Check(prefilled == "", "K20", "codec."+fn.Name()+":fresh", c.P.Pos(fn.Pos()), fmt.Sprintf("%d decodes into values created for them, untouched before the field walk", fresh), prefilled)
 		}
 	}
 	_ = n
